@@ -196,6 +196,8 @@ inductive SStmt where
   | delItem (name : String)
   /-- `self._h5group.write_data(name, <arg>, DataType.<d>)` -/
   | writeData (name : String) (d : DType)
+  /-- `if np.ndim(<arg>) != 1: raise ValueError(...)` -/
+  | checkFlat
   /-- `util.check_attr_type(<arg>, Number)` (`None` passes) -/
   | checkNumber
   /-- `self._h5group.set_attr(name, <arg>)` (`None` deletes the attribute) -/
@@ -211,6 +213,8 @@ def SCond.eval (cn : String) (a : Arr) (arg : SArg) : SCond → Except Err Bool
   | .argLenZero =>
     match arg with
     | .coeff (.seq cs) => .ok (cs.length == 0)
+    | .coeff (.notFlat n) => .ok (n == 0)
+    | .coeff (.badElems _) => .ok false
     | .coeff _ => .error .typeError               -- `len()` of a number / of None
     | .origin _ => .error .runtimeError           -- not modelled
   | .hasData n => if n = cn then .ok a.coeffs.isSome else .error .runtimeError
@@ -229,8 +233,16 @@ def SStmt.run (cn on : String) (arg : SArg) : SStmt → Arr → Except Err Arr
     if n = cn ∧ d = .float64 then
       match arg with
       | .coeff (.seq cs) => .ok { a with coeffs := some cs }
+      -- `write_data` converts to double first: an element that is no real number is refused there
+      | .coeff (.badElems cplx) => .error (if cplx then .typeError else .valueError)
       | _ => .error .runtimeError                 -- not modelled (never reached by the code as it is)
     else .error .runtimeError
+  | .checkFlat, a =>
+    match arg with
+    | .coeff (.seq _) => .ok a
+    | .coeff (.badElems _) => .ok a
+    | .coeff (.notFlat _) => .error .valueError
+    | _ => .error .runtimeError                   -- `np.ndim` of a number / None is 0, never reached
   | .checkNumber, a =>
     match arg with
     | .origin .notNumber => .error .typeError
